@@ -1070,7 +1070,10 @@ where
         reply_receiver: CmdReplyReceiver,
         key_num: usize,
     ) -> TaskResult {
-        let keys: Vec<_> = (3..3 + key_num)
+        // `numkeys` comes from the client. Never iterate beyond the arguments it really sent.
+        let arg_len = cmd_ctx.get_cmd().get_command_len().unwrap_or(0);
+        let keys: Vec<_> = (3..arg_len)
+            .take(key_num)
             .filter_map(|i| cmd_ctx.get_cmd().get_command_element(i))
             .map(|b| b.to_vec())
             .collect();
